@@ -5,6 +5,7 @@
 mod chain;
 mod epoch;
 mod gen;
+mod math;
 mod sim;
 mod scen;
 mod out;
@@ -45,6 +46,7 @@ fn main() {
     let fam = match family.as_str() {
         "epoch" => epoch::generate(seed, count),
         "chain-pool" | "chain-farm" | "chain-mixed" => chain::generate(&family, seed, count),
+        "math-fn" => math::generate(seed, count),
         "findings" => scen::generate_findings(seed, count > 1),
         "probe-scn" => scen::generate_probes(seed, count),
         "farm-scn" | "manyfarms-scn" | "pool-scn" | "fault-scn" | "auth-scn" => scen::generate(&family, seed, count),
